@@ -98,6 +98,59 @@ inline std::array<std::pair<uint16_t, uint8_t>, 4> genEndpointAlphabet()
     return alphabet;
 }
 
+// Long gaps: endpoint E opens a segmented message, then 17..70 frames of other endpoints pass (mostly first segments of their
+// own messages, some continuations and unsegmented frames) before E's next segment arrives - and again before the one after.
+// Whatever a decoder does "now and then" to its table (ageing, sweeping, rehashing, evicting) must not reach E's message.
+inline rc::Gen<FrameHistory> genLongGapHistory()
+{
+    return rc::gen::exec([]() {
+        FrameHistory hist;
+        auto alphabet = genEndpointAlphabet();
+        const int nOthers = *range<int>(1, 3);
+        uint16_t seq[4];
+        bool open[4] = {false, false, false, false};
+        for (auto& q : seq)
+            q = *rc::gen::element<uint16_t>(0, 1, 100, 65500, 65534, 65535, 777);
+        auto frameOf = [&](int e, uint8_t seg) {
+            FrameRecipe f;
+            f.dev = alphabet[static_cast<size_t>(e)].first;
+            f.stream = alphabet[static_cast<size_t>(e)].second;
+            f.seq = seq[e]++;
+            f.msgs.push_back(genMsg(seg, 24));
+            return f;
+        };
+        const int eSegments = *range<int>(2, 4);
+        for (int k = 0; k < eSegments; ++k)
+        {
+            hist.frames.push_back(frameOf(0, k == 0 ? 1 : k == eSegments - 1 ? 3 : 2));
+            if (k == eSegments - 1)
+                break;
+            int gap = *rc::gen::weightedOneOf<int>({{3, range<int>(17, 40)}, {1, range<int>(41, 70)}, {1, range<int>(1, 16)}});
+            for (int g = 0; g < gap; ++g)
+            {
+                int o = 1 + *range<int>(0, nOthers - 1);
+                int what = *rc::gen::weightedElement<int>({{6, 0}, {3, 1}, {1, 2}});
+                if (what == 0)
+                {
+                    hist.frames.push_back(frameOf(o, 1));
+                    open[o] = true;
+                }
+                else if (what == 1)
+                {
+                    hist.frames.push_back(frameOf(o, open[o] ? 3 : 1));
+                    open[o] = !open[o];
+                }
+                else
+                {
+                    hist.frames.push_back(frameOf(o, 0));
+                    open[o] = false;
+                }
+            }
+        }
+        return hist;
+    });
+}
+
 inline rc::Gen<FrameHistory> genFrameHistory(const HistoryGenParams& params)
 {
     return rc::gen::exec([params]() {
